@@ -486,6 +486,10 @@ cdef class StratifiedSFCNNPS(NNPS):
                 else:
                     current_hmax_level[key_stripped] = fmax(current_hmax_level[key_stripped], h_ptr[pid])
 
+            if num_particles == 0:
+                # an empty array has no neighbors to offer
+                continue
+
             pid = current_pids[0]
             key = current_keys[0]
 
@@ -708,7 +712,11 @@ cdef class StratifiedSFCNNPS(NNPS):
             (self.xmax.data[1] - self.xmin.data[1])),
             (self.xmax.data[2] - self.xmin.data[2]))
 
-        cdef int max_num_cells = (<int> ceil(max_length/self.hmin))
+        # The keys index cells that are never smaller than those of the
+        # finest level.  (Do not use hmin here: it is zero when one of the
+        # arrays is empty.)
+        cdef double finest_cell_size = self.cell_size / (2 ** (self.num_levels - 1))
+        cdef int max_num_cells = (<int> ceil(max_length/finest_cell_size))
 
         self.max_num_bits = 1 + 3*(<int> ceil(log2(max_num_cells)))
 
@@ -853,13 +861,17 @@ cdef class StratifiedSFCNNPS(NNPS):
 
         strip_mask = ((<uint64_t> 1) << self.max_num_bits) - 1
 
+        if curr_num_particles == 0:
+            # an empty array has no cells
+            return
+
         key = current_keys[0]
         level = key >> self.max_num_bits
         key_stripped = key & strip_mask
         current_key_to_idx[level][key_stripped] = 0;
         current_num_cells[level] += 1
 
-        for i in range(curr_num_particles):
+        for i in range(1, curr_num_particles):
             key = current_keys[i]
             if key != current_keys[i-1]:
                 level = key >> self.max_num_bits
